@@ -89,8 +89,13 @@ def concretize(v, model, memo=None):
     if isinstance(v, SDict):
         return {'__dict__': [[concretize(k, model, memo), concretize(x, model, memo)] for k, x in v.d.items()]}
     if isinstance(v, SObj):
-        return {'__class__': f"{v.cls.__module__}:{v.cls.__qualname__}",
-                'fields': {k: concretize(x, model, memo) for k, x in v.fields.items()}}
+        if id(v) in memo:
+            return {'__ref__': memo[id(v)]}        # shared / cyclic object: refer to the first occurrence
+        memo[id(v)] = len(memo) + 1
+        out = {'__class__': f"{v.cls.__module__}:{v.cls.__qualname__}", '__id__': memo[id(v)], 'fields': {}}
+        for k, x in v.fields.items():
+            out['fields'][k] = concretize(x, model, memo)
+        return out
     if isinstance(v, SOpaque):
         t = v.truth
         return {'__opaque__': v.name, 'truth': (z3.is_true(ev(t)) if t is not None and not isinstance(t, bool) else t)}
@@ -175,24 +180,32 @@ def eval_clause(I, src, env):
         I.spec_depth -= 1
 
 
-def frame_equal(I, a, b):
-    """deep equality of an argument before/after (heap objects compared field-wise)"""
+def frame_equal(I, a, b, seen=None):
+    """deep equality of an argument before/after (heap objects compared field-wise; cyclic
+    object graphs are followed once)"""
+    if seen is None:
+        seen = set()
+    if isinstance(a, (SObj, SList, SDict)):
+        key = (id(a), id(b))
+        if key in seen:
+            return True
+        seen.add(key)
     if isinstance(a, SObj) and isinstance(b, SObj):
         if set(a.fields) != set(b.fields):
             return False
-        return zand(*[frame_equal(I, a.fields[k], b.fields[k]) for k in a.fields])
+        return zand(*[frame_equal(I, a.fields[k], b.fields[k], seen) for k in a.fields])
     if isinstance(a, SList) and isinstance(b, SList):
         if len(a.items) != len(b.items):
             return False
-        return zand(*[frame_equal(I, x, y) for x, y in zip(a.items, b.items)])
+        return zand(*[frame_equal(I, x, y, seen) for x, y in zip(a.items, b.items)])
     if isinstance(a, tuple) and isinstance(b, tuple):
         if len(a) != len(b):
             return False
-        return zand(*[frame_equal(I, x, y) for x, y in zip(a, b)])
+        return zand(*[frame_equal(I, x, y, seen) for x, y in zip(a, b)])
     if isinstance(a, SDict) and isinstance(b, SDict):
         if list(a.d.keys()) != list(b.d.keys()):
             return False
-        return zand(*[frame_equal(I, a.d[k], b.d[k]) for k in a.d])
+        return zand(*[frame_equal(I, a.d[k], b.d[k], seen) for k in a.d])
     if isinstance(a, (SOpaque,)) or isinstance(b, (SOpaque,)):
         return a is b
     if kind_of(a) != kind_of(b):
@@ -254,7 +267,7 @@ def make_run(world, c, combo, use_contracts, spec_builtins):
                         # the listed fields may change, every other field of the object may not
                         a, b = old[name], args[name]
                         same = zand(set(a.fields) - set(fields) == set(b.fields) - set(fields),
-                                    *[frame_equal(I, a.fields[k], b.fields[k]) for k in a.fields
+                                    *[frame_equal(I, a.fields[k], b.fields[k], set()) for k in a.fields
                                       if k not in fields and k in b.fields])
                         st.add_vc(f"frame.{name}", 'frame', same, {'level': c.level, 'except': fields})
                     else:
@@ -321,7 +334,8 @@ def verify_combo(world, c, combo, use_contracts, spec_builtins):
                 m = r.get('model')
                 if m is not None:
                     try:
-                        inst['inputs'] = {k: concretize(v, m) for k, v in st.notes['inputs'].items()}
+                        cmemo = {}
+                        inst['inputs'] = {k: concretize(v, m, cmemo) for k, v in st.notes['inputs'].items()}
                     except Exception as e:       # model extraction must never turn into a verdict
                         inst['inputs_error'] = repr(e)
                 inst['outcome'] = outcome
